@@ -114,3 +114,10 @@ Example C06_spec_examples :
              /\ BacklogSpec.peak s = 2 /\ BacklogSpec.backlog s = 0) /\
   BacklogSpec.accept 2 BacklogSpec.init 0 [BacklogSpec.Acc; BacklogSpec.Acc; BacklogSpec.Acc] = inr (2, BacklogSpec.Overflow).
 Proof. split; [eexists; repeat split; vm_compute; reflexivity | vm_compute; reflexivity]. Qed.
+(* AsyncServer's admission gate at the granularity of its code (Model/AGate.v): the ledger never exceeds the capacity, with or
+   without the pass-on repair, for every history. *)
+From MpV Require Model.AGate Proof.AGateProof.
+Theorem C06_async_gate_bounded : forall (g : AGate.cfg) (sched : list AGate.label),
+  AGate.b (run AGate.step g AGate.init sched) <= AGate.cap g.
+Proof. exact AGateProof.gate_bounded. Qed.
+Print Assumptions C06_async_gate_bounded.
